@@ -114,7 +114,7 @@ PROPS["C03"] = dict(
 PROPS["C05"] = dict(
     modules=["Sth.Props.C01", "Sth.Props.C08", "Sth.Props.C05"],
     theorems=list(CORE_RL) + ['Sth.C05_wf_invariant', 'Sth.C05_linearizable', 'Sth.C05_log_faithful', 'Sth.C05_entry_during_call', 'Sth.C05_real_time', 'Sth.C05_owned_keys_no_overlap', 'Sth.C05_linearizable_owned', 'Sth.C05_put_index_publishes', 'Sth.C05_read_your_writes', 'Sth.C05_get_sees_contents', 'Sth.C05_keys_do_not_interfere', 'Sth.C05_frame_step', 'Sth.C05_freelist_exactly_once', 'Sth.C05_no_leak', 'Sth.C05_quiescent_exactly_once', 'Sth.C05_double_free_without_premise', 'Sth.C05_overlap_put_remove_errs', 'Sth.C05_overlap_new_puts_lose_one', 'Sth.C05_overlap_new_puts_not_legal'],
-    runs=[dict(engine="sched", quick=400, thorough=20000, extra=["-profile", "c05"], nontrivial=["overlapping-calls", "conc-model-agrees"])],
+    runs=[dict(engine="sched", quick=1000, thorough=20000, extra=["-profile", "c05"], nontrivial=["overlapping-calls", "conc-model-agrees"])],
     shrink_budget=0,
     rule="2-3 threads of 1-3 Put/Get/Has/GetSize/Remove calls on 2-4 keys clustered in one or two buckets with shared prefixes, plus a "
          "Flush thread, run on the real store under a cooperative scheduler that parks every thread at named points between the lock "
